@@ -29,7 +29,7 @@ FLOORS["thorough"].update({'rational_clock_programs': 750, 'succeed_with_mutable
 PROFILE = {"weights": {"timeout": 4, "zero": 1, "wait": 5, "succeed": 3, "fail": 2, "spawn": 2, "join": 3,
                        "interrupt": 0.7, "cb": 2, "cond": 1.2, "chain": 0.9, "cbint": 0.2, "ptrigger": 0.6},
            "max_top": 6, "max_child_scripts": 3, "min_ev": 1, "max_ev": 3, "p_exact": 0.85, "p_raise": 0.2,
-           "p_catch": 0.6, "p_rational": 0.03}
+           "p_catch": 0.6, "p_rational": 0.03, "p_inf_delay": 0.004}
 KEYS = ("waiter_invocations", "multi_waiter_events", "failed_events", "escapes_matched", "double_triggers",
         "imm_resumes", "source_checks", "same_instant_groups")
 
